@@ -1,70 +1,265 @@
 package checks
 
 import (
+	"errors"
 	"sort"
 	"strings"
+
+	"mvdan.cc/sh/v3/pattern"
 )
 
 // c19Classify names the narrow divergence families recorded as known
-// findings. Every predicate combines the syntactic shape of the word/options
-// with the direction of the divergence; several of them re-run the
-// interpreter on a variant of the word to confirm the suspected cause.
+// findings. A class is returned only when the whole difference between the
+// interpreter's and bash's lists is accounted for:
+//
+//   - "error" families: the interpreter refuses the command with one specific
+//     message (documented limitations of its !(...) support);
+//   - the backslash family is confirmed by re-running the interpreter with
+//     the star quoted as '*' instead of \*: the class is given only if that
+//     variant produces exactly bash's list. If it does not, the remaining
+//     difference is classified on its own (two causes in one word);
+//   - "shape" families: the interpreter does not treat the word as the
+//     pattern bash sees (no matches at all, or a subset of bash's);
+//   - "path set" families: every path the interpreter lists and bash does
+//     not must be explained by an applicable cause (hidden name matched by a
+//     wildcard, path below a symlinked directory under **, zero-depth match
+//     of **//x), nothing bash lists may be missing, and the only other
+//     differences allowed are the spelling of slashes (runs of "/" from the
+//     word, trailing "/" of a zero-depth ** match) and duplicates from
+//     several ** components. Both lists must be sorted.
+//
+// Anything else stays unclassified and is reported as a VIOLATION.
 func c19Classify(t c19Case, tree string, sh c19ShResult, bash string) string {
+	if t.Opts&c19NoGlob != 0 {
+		return "" // nothing is known to diverge with globbing off
+	}
 	w := t.Word
-	shL, baL := c19Lines(sh.Res), c19Lines(bash)
-	literal := c19Unescape(c19Show(t))
-	shLiteral := len(shL) == 1 && shL[0] == literal
 	extOn := t.Opts&c19ExtGlob != 0
 	switch {
-	case t.Opts&c19NoGlob != 0:
-		return "" // nothing is known to diverge with globbing off
-	case extOn && strings.Contains(w, "!(") && len(shL) == 0 && strings.Contains(sh.Stderr, "only supported with a fixed prefix and suffix"):
-		// documented limitation: the command is not run at all
+	case extOn && strings.Contains(w, "!(") && sh.Res == "0:" && strings.Contains(sh.Stderr, "only supported with a fixed prefix and suffix"):
+		// documented limitation: the command is not run at all (and the
+		// status stays 0)
 		return "negated-extglob-needs-fixed-prefix-and-suffix"
-	case extOn && strings.Count(w, "!(") > 1 && len(shL) == 0 && strings.Contains(sh.Stderr, "multiple extglob !(...) groups are not supported yet"):
+	case extOn && strings.Count(w, "!(") > 1 && sh.Res == "0:" && strings.Contains(sh.Stderr, "multiple extglob !(...) groups are not supported yet"):
 		return "multiple-negated-extglob-groups"
-	case strings.Contains(w, `\*`) && sh.Res == c19Sh(tree, t, strings.ReplaceAll(w, `\*`, "*")).Res:
-		// a backslash-escaped "*" globs exactly like an unquoted one
-		return "escaped-star-still-globs"
-	case extOn && c19HasExtOnlyComponent(w) && (shLiteral || len(shL) == 0 && t.Opts&c19NullGlob != 0):
+	}
+	literal := c19Unescape(c19Show(t))
+	if strings.Contains(w, `\*`) && sh.Res == c19Sh(tree, t, strings.ReplaceAll(w, `\*`, "*")).Res {
+		// The backslash-escaped "*" globs exactly like an unquoted one.
+		// With the star in single quotes the interpreter quotes it properly;
+		// if that gives bash's list, the backslash is the whole story.
+		quoted := c19Sh(tree, t, strings.ReplaceAll(w, `\*`, `'*'`))
+		if quoted.Panic != "" || quoted.ParseErr != "" {
+			return ""
+		}
+		if quoted.Res == bash {
+			return "escaped-star-still-globs"
+		}
+		// A second cause: classify what remains, looking at the word with
+		// the escaped star standing for an ordinary character.
+		return c19ClassifyRest(t, tree, strings.ReplaceAll(w, `\*`, "S"), literal, quoted, bash)
+	}
+	return c19ClassifyRest(t, tree, w, literal, sh, bash)
+}
+
+// c19ClassifyRest classifies every family but the backslash one. shape is
+// the word as far as pattern syntax goes (an escaped star replaced by an
+// ordinary character), literal the word after quote removal (what a shell
+// prints when nothing matches).
+func c19ClassifyRest(t c19Case, tree, shape, literal string, sh c19ShResult, bash string) string {
+	shStatus, _, _ := strings.Cut(sh.Res, ":")
+	baStatus, _, _ := strings.Cut(bash, ":")
+	if shStatus != "0" || baStatus != "0" {
+		return ""
+	}
+	shL, baL := c19Lines(sh.Res), c19Lines(bash)
+	nullglob := t.Opts&c19NullGlob != 0
+	globstar := t.Opts&c19GlobStar != 0
+	extOn := t.Opts&c19ExtGlob != 0
+	shown := shape
+	if t.Abs {
+		shown = `"$T"/` + shape
+	}
+	// A list consisting of the unexpanded word means "no matches".
+	shNone := len(shL) == 0 && nullglob || !nullglob && len(shL) == 1 && shL[0] == literal
+	baNone := len(baL) == 0 && nullglob || !nullglob && len(baL) == 1 && baL[0] == literal
+	shKept := len(shL) == 1 && shL[0] == literal
+	baKept := len(baL) == 1 && baL[0] == literal
+
+	switch {
+	case extOn && c19HasExtOnlyComponent(shape) && (shNone && !baNone || nullglob && shKept && len(baL) == 0):
 		// a path component whose only pattern characters are extglob
 		// operators is not treated as a pattern: the word is kept verbatim
-		// (even with nullglob) or the component is looked up literally
+		// (even under nullglob when bash finds nothing) or the component
+		// is looked up literally, so nothing is found where bash has matches
 		return "extglob-only-component-not-globbed"
-	case extOn && strings.Contains(w, "**(") && len(shL) <= len(baL):
+	case extOn && strings.Contains(shape, "**(") && !baNone && c19Subset(c19Matches(shL, shNone), baL) && len(c19Matches(shL, shNone)) < len(baL):
 		// "*" followed by a "*(...)" group: the two stars are read as "**"
-		// and the group's parentheses become literal characters
+		// and the group's parentheses become literal characters, so the
+		// interpreter finds fewer names (usually none)
 		return "star-before-star-group"
-	case strings.Contains(c19Show(t), "//") && strings.ReplaceAll(bash, "//", "/") == sh.Res:
-		// bash keeps consecutive slashes of the word in its results
-		return "consecutive-slashes-collapsed"
-	case strings.Contains(c19Show(t), "//") && strings.Contains(bash, "//") && t.Opts&c19GlobStar != 0 && c19HasGlobStarComponent(w) && c19OnlyExtraBelowSymlink(shL, c19Lines(strings.ReplaceAll(bash, "//", "/"))):
-		// both of the above at once
-		return "globstar-descends-into-symlinked-directories"
-	case t.Opts&c19GlobStar != 0 && c19GlobStarComponents(w) > 1 && c19RepeatedGlobStar(shL, baL):
-		// **/**: bash lists every path once; sh lists a path once per way
-		// of splitting it between the two **, with "d/" variants (and it
-		// descends into symlinked directories, see above)
-		return "repeated-globstar-duplicates"
-	case t.Opts&c19NullGlob != 0 && c19BracketSpansSlash(w) && len(shL) == 0 && len(baL) == 1 && baL[0] == literal:
+	case nullglob && c19BracketSpansSlash(shape) && len(shL) == 0 && baKept:
 		// "[" ... "/" ... "]": for bash not a pattern at all (kept even with
 		// nullglob); sh treats it as a pattern without matches
 		return "nullglob-removes-bracket-spanning-slash"
-	case t.Opts&c19GlobStar != 0 && c19HasGlobStarComponent(w) && c19OnlyExtraBelowSymlink(shL, baL):
-		// sh = bash's matches plus paths below a symlink to a directory:
-		// bash's ** does not descend into symlinked directories
-		return "globstar-descends-into-symlinked-directories"
-	case t.Opts&c19GlobStar != 0 && strings.Contains(w, "/**") && c19SameButTrailingSlash(shL, baL):
-		// <pattern>/**: for the zero-depth match bash prints "d" when the
-		// directory part is itself a pattern, sh prints "d/" (as both do
-		// for a literal directory part)
-		return "globstar-zero-depth-trailing-slash"
-	case t.Opts&c19DotGlob == 0 && c19OnlyExtraHidden(shL, baL, literal):
-		// sh = bash's matches plus names with a leading dot that no literal
-		// "." in the pattern asked for
+	case shKept && !baKept && c19PatternSyntaxError(shape, extOn):
+		// pattern.Regexp rejects a component (an unterminated "[." or "[="
+		// inside a bracket expression), which leaves the whole word
+		// unexpanded even with nullglob; bash takes the "[" literally and
+		// globs the rest
+		return "unterminated-collating-symbol-disables-globbing"
+	}
+
+	// path set families
+	if shNone && !baNone || !sort.StringsAreSorted(shL) || !sort.StringsAreSorted(baL) {
+		return ""
+	}
+	var used struct{ slashes, trailing, dups, hidden, symlink, zeroDepth bool }
+	doubled := strings.Contains(shown, "//")
+	ba := map[string]bool{}
+	for _, p := range c19Matches(baL, baNone) {
+		if doubled {
+			if q := c19CollapseSlashes(p); q != p {
+				// bash keeps the runs of slashes of the word in its results
+				used.slashes = true
+				p = q
+			}
+		}
+		if ba[p] {
+			return "" // bash never lists a path twice
+		}
+		ba[p] = true
+	}
+	stars := c19GlobStarComponents(shape)
+	var zero map[string]bool // the zero-depth matches of **//x, computed lazily
+	seen := map[string]bool{}
+	for _, p := range c19Matches(shL, shNone) {
+		if !ba[p] && strings.HasSuffix(p, "/") && ba[strings.TrimSuffix(p, "/")] && globstar && strings.Contains(shape, "/**") {
+			// <pattern>/**: for the zero-depth match bash prints "d" when
+			// the directory part is itself a pattern, sh prints "d/" (as
+			// both do for a literal directory part)
+			used.trailing = true
+			p = strings.TrimSuffix(p, "/")
+		}
+		if seen[p] {
+			if !(globstar && stars > 1) {
+				return ""
+			}
+			// **/**: sh lists a path once per way of splitting it between
+			// the two **
+			used.dups = true
+			continue
+		}
+		seen[p] = true
+		if ba[p] {
+			continue
+		}
+		switch {
+		case globstar && strings.Contains(shape, "**//") && stars > 0 && c19ZeroDepth(&zero, t, tree, shape, p):
+			// **//x: bash does not list the matches of x in the starting
+			// directory itself (and spells the others with one slash)
+			used.zeroDepth = true
+		case t.Opts&c19DotGlob == 0 && c19Hidden(p) && c19HasWildcardStart(shape, globstar):
+			// a name with a leading dot matched by "?", "[...]" or a "*"
+			// that is not the whole component
+			used.hidden = true
+		case globstar && stars > 0 && c19BelowSymlink(p):
+			// bash's ** does not descend into symlinked directories
+			used.symlink = true
+		default:
+			return ""
+		}
+	}
+	for p := range ba {
+		if !seen[p] {
+			return "" // the interpreter misses a path: no known family
+		}
+	}
+	switch {
+	case used.zeroDepth:
+		return "globstar-then-empty-component"
+	case used.dups:
+		return "repeated-globstar-duplicates"
+	case used.hidden:
 		return "wildcard-matches-leading-dot"
+	case used.symlink:
+		return "globstar-descends-into-symlinked-directories"
+	case used.trailing:
+		return "globstar-zero-depth-trailing-slash"
+	case used.slashes:
+		return "consecutive-slashes-collapsed"
 	}
 	return ""
+}
+
+// c19Matches is the list of matched paths: empty when the list only holds
+// the unexpanded word.
+func c19Matches(l []string, none bool) []string {
+	if none {
+		return nil
+	}
+	return l
+}
+
+func c19Subset(a, b []string) bool {
+	in := map[string]bool{}
+	for _, p := range b {
+		in[p] = true
+	}
+	for _, p := range a {
+		if !in[p] {
+			return false
+		}
+	}
+	return true
+}
+
+func c19CollapseSlashes(p string) string {
+	for strings.Contains(p, "//") {
+		p = strings.ReplaceAll(p, "//", "/")
+	}
+	return p
+}
+
+// c19ZeroDepth: p is one of the paths the interpreter lists for the word
+// with its first "**//" removed, i.e. a match in the starting directory.
+func c19ZeroDepth(cache *map[string]bool, t c19Case, tree, shape, p string) bool {
+	if *cache == nil {
+		*cache = map[string]bool{}
+		i := strings.Index(t.Word, "**//")
+		if i < 0 || i > 0 && t.Word[i-1] != '/' {
+			return false
+		}
+		rest := t.Word[:i] + t.Word[i+len("**//"):]
+		if rest == "" || strings.HasPrefix(rest, "/") && !t.Abs {
+			return false
+		}
+		res := c19Sh(tree, t, strings.ReplaceAll(rest, `\*`, `'*'`))
+		if res.Panic != "" || res.ParseErr != "" {
+			return false
+		}
+		for _, q := range c19Lines(res.Res) {
+			(*cache)[q] = true
+		}
+	}
+	return (*cache)[p]
+}
+
+// c19PatternSyntaxError: pattern.Regexp, as called by expand's globbing,
+// rejects one of the word's path components with a syntax error.
+func c19PatternSyntaxError(shape string, ext bool) bool {
+	mode := pattern.Filenames | pattern.EntireString | pattern.NoGlobStar
+	if ext {
+		mode |= pattern.ExtendedOperators
+	}
+	for _, comp := range strings.Split(shape, "/") {
+		_, err := pattern.Regexp(comp, mode)
+		var serr *pattern.SyntaxError
+		if err != nil && errors.As(err, &serr) {
+			return true
+		}
+	}
+	return false
 }
 
 // c19Unescape removes the quoting of a word as written in the alphabet
@@ -118,6 +313,23 @@ func c19HasExtOnlyComponent(w string) bool {
 	return false
 }
 
+// c19HasWildcardStart: some component of w begins with pattern syntax that
+// is not a plain dot-excluding star: "?", "[", an extglob group, or "*"
+// followed by anything else (the whole-component "*", and "**" under
+// globstar, are matched correctly against hidden names).
+func c19HasWildcardStart(w string, globstar bool) bool {
+	for _, comp := range strings.Split(w, "/") {
+		switch {
+		case comp == "", comp == "*", comp == "**" && globstar:
+		case comp[0] == '?', comp[0] == '[', comp[0] == '*':
+			return true
+		case len(comp) > 1 && comp[1] == '(' && strings.IndexByte("@!+", comp[0]) >= 0:
+			return true
+		}
+	}
+	return false
+}
+
 // c19BracketSpansSlash: a "[" whose closing "]" lies beyond a "/".
 func c19BracketSpansSlash(w string) bool {
 	for i := 0; i < len(w); i++ {
@@ -130,8 +342,6 @@ func c19BracketSpansSlash(w string) bool {
 	return false
 }
 
-func c19HasGlobStarComponent(w string) bool { return c19GlobStarComponents(w) > 0 }
-
 func c19GlobStarComponents(w string) int {
 	n := 0
 	for _, comp := range strings.Split(w, "/") {
@@ -142,92 +352,16 @@ func c19GlobStarComponents(w string) int {
 	return n
 }
 
-// c19RepeatedGlobStar: after dropping trailing slashes, duplicates and paths
-// below the symlinked directory, sh's list is bash's list.
-func c19RepeatedGlobStar(shL, baL []string) bool {
-	set := map[string]bool{}
-	for _, p := range shL {
-		p = strings.TrimSuffix(p, "/")
-		comps := strings.Split(p, "/")
-		below := false
-		for _, comp := range comps[:len(comps)-1] {
-			if comp == "ld" {
-				below = true
-			}
-		}
-		if !below {
-			set[p] = true
+// c19BelowSymlink: the path continues below "ld", the trees' symlink to a
+// directory.
+func c19BelowSymlink(p string) bool {
+	comps := strings.Split(strings.TrimSuffix(p, "/"), "/")
+	for _, comp := range comps[:len(comps)-1] {
+		if comp == "ld" {
+			return true
 		}
 	}
-	if len(set) != len(baL) || len(shL) <= len(baL) {
-		return false
-	}
-	for _, p := range baL {
-		if !set[p] {
-			return false
-		}
-	}
-	return true
-}
-
-// c19OnlyExtraBelowSymlink: sh's list is bash's list plus at least one path
-// that continues below "ld", the trees' symlink to a directory.
-func c19OnlyExtraBelowSymlink(shL, baL []string) bool {
-	ba := map[string]bool{}
-	for _, p := range baL {
-		ba[p] = true
-	}
-	sh := map[string]bool{}
-	extra := 0
-	for _, p := range shL {
-		sh[p] = true
-		if ba[p] {
-			continue
-		}
-		comps := strings.Split(strings.TrimSuffix(p, "/"), "/")
-		below := false
-		for _, comp := range comps[:len(comps)-1] {
-			if comp == "ld" {
-				below = true
-			}
-		}
-		if !below {
-			return false
-		}
-		extra++
-	}
-	for p := range ba {
-		if !sh[p] {
-			return false
-		}
-	}
-	return extra > 0
-}
-
-// c19SameButTrailingSlash: the lists differ only in that some of sh's paths
-// carry a trailing slash that bash's do not.
-func c19SameButTrailingSlash(shL, baL []string) bool {
-	if len(shL) != len(baL) {
-		return false
-	}
-	a, b := c19Sorted(shL), c19Sorted(baL)
-	diff := false
-	for i := range a {
-		a[i] = strings.TrimSuffix(a[i], "/")
-	}
-	a = c19Sorted(a)
-	for i := range a {
-		if a[i] != b[i] {
-			return false
-		}
-	}
-	for i, p := range c19Sorted(shL) {
-		_ = i
-		if strings.HasSuffix(p, "/") {
-			diff = true
-		}
-	}
-	return diff
+	return false
 }
 
 func c19Hidden(path string) bool {
@@ -237,41 +371,4 @@ func c19Hidden(path string) bool {
 		}
 	}
 	return false
-}
-
-// c19OnlyExtraHidden: sh's list is bash's list (an unmatched literal word
-// counting as no match) plus at least one path with a hidden component.
-func c19OnlyExtraHidden(shL, baL []string, literal string) bool {
-	ba := map[string]bool{}
-	for _, p := range baL {
-		if !(len(baL) == 1 && p == literal) {
-			ba[p] = true
-		}
-	}
-	sh := map[string]bool{}
-	extra := 0
-	for _, p := range shL {
-		if len(shL) == 1 && p == literal {
-			continue
-		}
-		sh[p] = true
-		if !ba[p] {
-			if !c19Hidden(p) {
-				return false
-			}
-			extra++
-		}
-	}
-	for p := range ba {
-		if !sh[p] {
-			return false
-		}
-	}
-	return extra > 0
-}
-
-func c19Sorted(l []string) []string {
-	l = append([]string(nil), l...)
-	sort.Strings(l)
-	return l
 }
